@@ -4,7 +4,9 @@ and interegular, an AST-level matcher (sets of end positions), and sampling of m
 
 Nodes (JSON lists):
   ["lit", c]                       one character
-  ["cls", items, negated]          items: ["ch", c] | ["rng", lo, hi] | ["esc", "d"|"w"|"s"]
+  ["cls", items, negated]          items: ["ch", c] | ["rng", lo, hi] | ["esc", "d"|"w"|"s"|"D"|"W"|"S"]
+                                   (a negated class holding both \\w and \\W matches nothing: the
+                                   automaton then has a dead state)
   ["esc", "d"|"w"|"s"|"D"|"W"|"S"]
   ["dot"]
   ["cat", [nodes]]   ["alt", [nodes]]   ["rep", node, m, n|null]   ["grp", node]   ["icase", node]
@@ -107,7 +109,7 @@ def _class_match(n, c, icase):
                 return True
             if it[0] == "rng" and it[1] <= ch <= it[2]:
                 return True
-            if it[0] == "esc" and ch in ESC[it[1]]:
+            if it[0] == "esc" and (ch in ESC[it[1].lower()]) == it[1].islower():
                 return True
         return False
 
